@@ -6,6 +6,7 @@ public ``sock=`` parameters vs lean/Model/Net.lean through the driver.  ``dns.qu
 Oracle: the property clauses evaluated on the implementation from the *construction* of every datagram
 (who sent it, what is in it), independent of dnspython and of the Lean model.
 """
+from harness.core import Stalled as _Stalled
 import contextlib
 import glob
 import json
@@ -1459,6 +1460,8 @@ def eval_sendudp(ctx: Ctx, c: dict):
                 sent = sock.sent
             out = ("ok", n)
         except BaseException as e:
+            if isinstance(e, _Stalled):
+                raise
             out = ("err", family_of(e))
             if not is_async:
                 sent = sock.sent
@@ -1525,6 +1528,8 @@ def run_x(c, cut):
         try:
             out = ("ok",) + go()
         except BaseException as e:
+            if isinstance(e, _Stalled):
+                raise
             out = ("err", family_of(e))
     n = getattr(sock, "delivered", None)
     return out + (n,), bool(getattr(sock, "starved", False)), bool(getattr(sock, "closed", False))
@@ -2217,7 +2222,9 @@ def async_variant(ctx: Ctx):
     with patched(clock):
         try:
             run_coro(dns.asyncquery.udp(q, "10.1.1.1", None, 53, None, 0, False, False, False, False, sock, None, True))
-        except BaseException:
+        except BaseException as _be:
+            if isinstance(_be, _Stalled):
+                raise
             pass
     ASYNC_COE = sock.delivered == 1
     ctx.extra["async_receive_udp_variant"] = "asShipped(continue_on_error=ignore_errors)" if ASYNC_COE else "intended"
